@@ -642,7 +642,20 @@ def translate() -> tuple[str, dict]:
     if ini is None:
         raise TranslatorError("Database._initial_statements not found")
     sqls = []
-    for call in ast.walk(ini):
+    # _initial_statements together with every private Database method it calls (transitively): splitting it into
+    # helpers moves the PRAGMA statements, it does not remove them
+    by_name = {n.name: n for n in base_cls.body if isinstance(n, ast.FunctionDef)}
+    todo, seen_fns = [ini], []
+    while todo:
+        fn_ = todo.pop()
+        if fn_ in seen_fns:
+            continue
+        seen_fns.append(fn_)
+        for c_ in ast.walk(fn_):
+            if isinstance(c_, ast.Call) and _is_self_attr(c_.func) and c_.func.attr.startswith("_") \
+                    and not c_.func.attr.startswith("__") and c_.func.attr in by_name:
+                todo.append(by_name[c_.func.attr])
+    for call in (c for fn_ in seen_fns for c in ast.walk(fn_)):
         if isinstance(call, ast.Call) and isinstance(call.func, ast.Attribute) \
                 and call.func.attr in ("execute", "executescript") and call.args \
                 and isinstance(call.args[0], ast.Constant) and isinstance(call.args[0].value, str):
